@@ -396,7 +396,12 @@ static void gen_c11(G &g) {
         Rng &r = g.faults; Json fx = Json::arr();
         unsigned x = (unsigned) r.below(10);
         if (x < 4) fx = payload_damage(g, 80 + 64);
-        else if (x < 6) { static const char *safe[] = {"idx", "beid", "bever", "chksum0", "origlen"}; fx.push(fx_field(safe[r.below(5)], (i64) r.below(70000), 1)); }
+        else if (x < 6) {
+            static const char *safe[] = {"idx", "beid", "bever", "chksum0", "origlen", "origlen"};
+            const char *f = safe[r.below(6)];
+            // original lengths beyond 2^32 use the upper half of the 64-bit field (the metadata query needs no buffer for them)
+            i64 v = strcmp(f, "origlen") ? (i64) r.below(70000) : (r.chance(1, 2) ? (i64) r.below(70000) : (i64) ((r.next() >> (1 + r.below(30))) | (1ULL << 32)));
+            fx.push(fx_field(f, v, 1)); }
         else if (x < 7) fx.push(fx_flip((i64) r.below(640)));
         Json j = mk("SCRUB"); j.set("obj", 0).set("slot", 0).set("dev", (int) r.below(c.n())).set("al", pick_al(r)).set("fx", fx).set("twin", 1);
         g.ops.push(j);
